@@ -180,6 +180,7 @@ func Run(c *engine.Ctx) {
 	sizeClasses(c)
 	historyPairs(c)
 	fileHistories(c)
+	multiByteText(c)
 	declarationCube(c)
 	headers(c)
 	tokens(c)
@@ -231,6 +232,51 @@ func sizeClasses(c *engine.Ctx) {
 					t.Outcome("size-class-ok")
 					return nil
 				})
+			}
+		}
+	}
+}
+
+// multiByteText: writer outputs in which a long run of 2-, 3- and 4-byte UTF-8 characters starts within the first few
+// hundred bytes and extends for 90 KB, shifted by 0..3 ASCII bytes: for every fixed byte offset in that stretch one
+// of the shifts puts the offset inside a character. Whatever window, prefix or buffer boundary detection uses, some
+// case has a character straddling it.
+func multiByteText(c *engine.Ctx) {
+	c.Group("multi-byte-text")
+	chars := []string{"é", "日", "😀"}
+	c.Bound("multi-byte-text", "4 readable formats x indents {0,2,4} x runs of 90 KB of 2- / 3- / 4-byte characters in the document name and the root node's name x shifts of 0..3 ASCII bytes: detected format = written format, ParseStream = ParseStreamWithOptions(Format)")
+	for _, f := range readable {
+		for _, indent := range []int{0, 2, 4} {
+			for _, ch := range chars {
+				for shift := 0; shift < 4; shift++ {
+					f, indent, ch, shift := f, indent, ch, shift
+					c.Case(func() any {
+						return map[string]any{"format": string(f), "indent": indent, "character": ch, "ascii-bytes-before-the-run": shift}
+					}, func(t *engine.T) *engine.Violation {
+						d := histDoc()
+						text := strings.Repeat("x", shift) + strings.Repeat(ch, 90000/len(ch))
+						d.Metadata.Name = text
+						d.NodeList.Nodes[0].Name = text
+						out, err := rw.Write(d, f, indent)
+						if err != nil {
+							return engine.Violate("harness", "", "write: %v", err)
+						}
+						got, serr := rw.Sniff(bytes.NewReader(out))
+						t.Transitions(1)
+						t.Validated(1)
+						if serr != nil || got != f {
+							return engine.Violate("written-format", "multi-byte", "a document written as %s (indent %d) whose names are %d ASCII bytes followed by 90 KB of %q is detected as (%q, %v)", f, indent, shift, ch, got, serr)
+						}
+						d1, e1 := rw.Read(out)
+						d2, e2 := rw.ReadAs(out, f)
+						if e1 != nil || e2 != nil || gen.Canon(d1.NodeList, nil) != gen.Canon(d2.NodeList, nil) {
+							return engine.Violate("parse-vs-explicit", "multi-byte", "ParseStream (%v) differs from ParseStreamWithOptions (%v)", e1, e2)
+						}
+						t.State(fmt.Sprint("mb", f, indent, ch, shift))
+						t.Outcome("multi-byte-ok")
+						return nil
+					})
+				}
 			}
 		}
 	}
